@@ -281,6 +281,14 @@ impl Iterator for ReluctantRepeatIterator<'_> {
             while self.counter < self.min {
                 let mut it = self.operation.matches_iter(self.matcher, position);
                 if let Some(next) = it.next() {
+                    if next == position {
+                        // a zero-width iteration: every remaining mandatory iteration
+                        // would repeat it at this position, so they all count as done
+                        // (the greedy repeat bounds its iterations by the remaining
+                        // input for the same reason)
+                        self.counter = self.min;
+                        break;
+                    }
                     position = next;
                     self.counter += 1;
                 } else {
